@@ -84,6 +84,11 @@ void clear_values();
 // same effect as compiling with a smaller Decompressor::input_buffer_size (needs clamp.cpp + wraps_clamp.txt)
 void set_decomp_clamp(size_t bytes);
 size_t decomp_clamp();
+// compressor failure: the n-th call (0-based) of compress2() in this run returns Z_MEM_ERROR (-1 = off)
+void set_compress_fail_at(int call);
+int compress_fail_at();
+void count_compress_call(bool failed);
+uint64_t compress_failures();
 
 // ---------------------------------------------------------------------------------------------
 // Generic worker main: parses the command line, runs `count` runs and prints one JSON line each.
